@@ -53,7 +53,11 @@ func SignJSON(signingName string, keyID KeyID, privateKey ed25519.PrivateKey, me
 		return nil, err
 	}
 	signature := spec.Base64Bytes(ed25519.Sign(privateKey, canonical))
-	if _, ok := preserve.Signatures[signingName]; ok {
+	if preserve.Signatures == nil {
+		// The message had "signatures": null.
+		preserve.Signatures = map[string]map[KeyID]spec.Base64Bytes{}
+	}
+	if preserve.Signatures[signingName] != nil {
 		preserve.Signatures[signingName][keyID] = signature
 	} else {
 		preserve.Signatures[signingName] = map[KeyID]spec.Base64Bytes{
